@@ -244,6 +244,54 @@ pub fn depth2() -> Vec<Ty> {
     out.into_iter().collect()
 }
 
+/// Unions of three members whose per-member answers (element, result, field, ...) are related by
+/// subtyping: `W(x)|W(y)|W(z)` for every wrapper W and every 3-subset of a small family of
+/// related types. Folds over union members that absorb subtypes or depend on the visiting order
+/// answer differently for different orders of such unions.
+pub fn related_unions() -> Vec<Ty> {
+    let i = Ty::Int;
+    let s = Ty::Str;
+    let u2 = Ty::union_of(vec![i.clone(), s.clone()]).unwrap();
+    let fam: Vec<Ty> = vec![
+        i.clone(),
+        Ty::Any,
+        u2.clone(),
+        Ty::Arr(Box::new(i.clone())),
+        Ty::Arr(Box::new(Ty::Any)),
+        s.clone(),
+        Ty::Float,
+        Ty::Arr(Box::new(u2.clone())),
+        Ty::Tup(vec![i.clone(), s.clone()]),
+        Ty::Tup(vec![Ty::Any, s.clone()]),
+    ];
+    let wrappers: Vec<Box<dyn Fn(&Ty) -> Ty>> = vec![
+        Box::new(|x| Ty::Arr(Box::new(x.clone()))),
+        Box::new(|x| Ty::Fun(vec![], Box::new(x.clone()))),
+        Box::new(|x| Ty::Fun(vec![x.clone()], Box::new(Ty::Int))),
+        Box::new(|x| Ty::Mut(Box::new(x.clone()))),
+        Box::new(|x| Ty::Struct(vec![("a".into(), x.clone())])),
+        Box::new(|x| Ty::Struct(vec![("a".into(), x.clone()), ("b".into(), Ty::Int)])),
+        Box::new(|x| Ty::Tup(vec![x.clone(), Ty::Int])),
+        Box::new(|x| Ty::Fun(vec![], Box::new(Ty::Tup(vec![Ty::Bool, x.clone()])))),
+    ];
+    let mut out: BTreeSet<Ty> = BTreeSet::new();
+    for w in &wrappers {
+        for a in 0..fam.len() {
+            for b in a + 1..fam.len() {
+                for c in b + 1..fam.len() {
+                    if let Some(t) = Ty::union_of(vec![w(&fam[a]), w(&fam[b]), w(&fam[c])]) {
+                        out.insert(t);
+                    }
+                }
+                if let Some(t) = Ty::union_of(vec![w(&fam[a]), w(&fam[b])]) {
+                    out.insert(t);
+                }
+            }
+        }
+    }
+    out.into_iter().collect()
+}
+
 /// A seeded depth-3 type (any constructor over depth <= 2 material).
 pub fn sample_depth3(rng: &mut Rng, pool: &[Ty]) -> Ty {
     let pick = |rng: &mut Rng| pool[rng.below(pool.len())].clone();
